@@ -37,6 +37,56 @@ fn check(rep: &Report, server_id: &str, secret: &[u8], key: &[u8], classes: &[At
     }
 }
 
+/// Feeds inputs and the implementation's answers to a Python one-liner that recomputes the hash with
+/// hashlib and int.from_bytes(signed=True); returns how many inputs were compared (0 if python3 is absent).
+fn python_cross_check(rep: &Report, sids: &[&str], keys: &[Vec<u8>], seed: u64) -> u64 {
+    use std::io::Write;
+    let script = r#"
+import sys, json, hashlib
+bad = 0
+n = 0
+for line in sys.stdin:
+    j = json.loads(line)
+    d = hashlib.sha1(j["sid"].encode() + bytes.fromhex(j["secret"]) + bytes.fromhex(j["key"])).digest()
+    v = int.from_bytes(d, "big", signed=True)
+    want = ("-" if v < 0 else "") + format(abs(v), "x")
+    n += 1
+    if want != j["got"]:
+        bad += 1
+        print("MISMATCH", json.dumps({"sid": j["sid"], "secret": j["secret"], "key": j["key"], "python": want, "passage": j["got"]}))
+print("DONE", n, bad)
+"#;
+    let Ok(mut child) = std::process::Command::new("python3").args(["-c", script]).stdin(std::process::Stdio::piped()).stdout(std::process::Stdio::piped()).stderr(std::process::Stdio::null()).spawn() else {
+        rep.assume("python3 not available: the hashlib cross-check was skipped");
+        return 0;
+    };
+    {
+        let stdin = child.stdin.as_mut().expect("stdin");
+        for i in 0..2000u64 {
+            let ctr = (i.wrapping_mul(0x9E3779B97F4A7C15) ^ seed) as u128;
+            let secret = ctr.to_be_bytes();
+            let sid = sids[(i % sids.len() as u64) as usize];
+            let key = &keys[(i % keys.len() as u64) as usize];
+            let got = std::panic::catch_unwind(|| minecraft_hash(sid, &secret, key)).unwrap_or_else(|_| "<panic>".into());
+            let _ = writeln!(stdin, "{}", json!({"sid": sid, "secret": hex(&secret), "key": hex(key), "got": got}));
+        }
+    }
+    let Ok(out) = child.wait_with_output() else { return 0 };
+    let text = String::from_utf8_lossy(&out.stdout).to_string();
+    let mut n = 0;
+    for l in text.lines() {
+        if let Some(m) = l.strip_prefix("MISMATCH ") {
+            rep.violation(Violation { key: "hash-mismatch:python-hashlib".into(), text: m.to_string(), replay: serde_json::from_str(m).unwrap_or(json!({})), weight: 0 });
+        } else if let Some(d) = l.strip_prefix("DONE ") {
+            n = d.split(' ').next().and_then(|x| x.parse().ok()).unwrap_or(0);
+        }
+    }
+    if n == 0 {
+        rep.assume("the python3 hashlib cross-check produced no result and was skipped");
+    }
+    n
+}
+
 pub fn run(cli: Cli) -> ! {
     let classes: [AtomicU64; 7] = Default::default();
     if let Some(case) = cli.replay {
@@ -109,6 +159,10 @@ pub fn run(cli: Cli) -> ! {
         check(&rep, "srv", &shorts[i], &[0x30, 0x81], &classes);
         evals.fetch_add(2, Ordering::Relaxed);
     });
+
+    // 4. a third, unrelated reference: Python's hashlib and big-integer arithmetic on 2 000 of the inputs
+    let py_checked = python_cross_check(&rep, &sids, &keys, seed);
+    rep.set("python_hashlib_cross_checked", json!(py_checked));
 
     let cl: Vec<u64> = classes.iter().map(|a| a.load(Ordering::Relaxed)).collect();
     let names = ["positive", "negative", "lead0", "lead1", "lead2", "lead3", "lead>=4"];
